@@ -181,7 +181,8 @@ pub fn run_load(trace: &Trace) -> Outcome {
                                 stats.max("loaded_width", b.get_width().max(0) as u64);
                                 stats.max("loaded_height", b.get_height().max(0) as u64);
                                 if prop == "C10" {
-                                    violation = crate::mon_term::check_unicode("C10", b, ei, &format!("{entry}({name})"));
+                                    violation = crate::mon_term::check_unicode("C10", b, ei, &format!("{entry}({name})"))
+                                        .or_else(|| crate::mon_term::derived_strings("C10", b, ei, &format!("{entry}({name})")));
                                 }
                             }
                             Loaded::Layer(lay) => {
